@@ -314,8 +314,13 @@ def _pen_oracles(ctx, case, impl):
                 else:
                     rest = None
                     break
-            if rest is None or rest not in ([], [(0.0, 0.0)]):
+            # a (0, 0) point is added exactly when EVERY listed abscissa is > 0 (wherever the non-positive one is listed)
+            want_rest = [(0.0, 0.0)] if all(float(x) > 0 for x, _ in raw) else []
+            if rest is None or rest != want_rest:
                 ctx.violation('normalisation_changes_points', f'{IMPS[j]}: listed {raw}, loaded {it}', case)
+                return
+            if [a for a, _ in it] != sorted(a for a, _ in it):
+                ctx.violation('normalisation_not_sorted', f'{IMPS[j]}: loaded table {it} is not sorted by impairment value', case)
                 return
     # oracle: the penalties of the receiver are those of the tables just applied, whatever it served before
     want = sorted(imp for imp, t in zip(IMPS, case['tabs']) if t)
